@@ -7,7 +7,9 @@
 (*    "upm":[[ mask of upgrade_v(mask) : mask 0..2^nf-1 ] : v],            *)
 (*    "upx":[[ #result features outside the universe : mask ] : v],        *)
 (*    "cover":[[ features the enumerated kinds of version v are made of ]  *)
-(*             : v]}                                                       *)
+(*             : v],                                                       *)
+(*    "hasobs":0/1, "obs":[[[ [status, results..] : g in cover[v] ]        *)
+(*             : subset of cover[v], numbered as a mask over cover[v] ]:v]}*)
 (* Feature sets travel as bit masks (bit i-1 = feature i).  The upgrade    *)
 (* functions are NOT tabulated as TLA+ functions over all subsets (2^16    *)
 (* records): Up[v][F] decodes the row of F when it is applied.             *)
@@ -37,7 +39,11 @@ CTabUpX   == TLCEval([v \in CTabSteps |-> CTab.upx[v]])
 \* applied lazily (function constructors without TLCEval): one row is decoded per application
 CTabUp    == [v \in CTabSteps |-> [F \in SUBSET CTabFeat |-> CSetOfMask(CTabUpM[v][CMaskOf(F) + 1])]]
 CTabUpOut == [v \in CTabSteps |-> [F \in SUBSET CTabFeat |-> CTabUpX[v][CMaskOf(F) + 1]]]
-CTabCover == TLCEval([v \in CTabSteps |-> CSeqSet(CTab.cover[v])])
+CTabCoverSeq == TLCEval([v \in CTabSteps |-> CTab.cover[v]])
+CTabCover == TLCEval([v \in CTabSteps |-> CSeqSet(CTabCoverSeq[v])])
+\* results recorded on real objects for every covering pair (hasobs = 1), see ProblemKindLatticeUpgrade
+CTabHasObs == CTab.hasobs = 1
+CTabObs    == CTab.obs
 
 \* shape of the file (a malformed file is a machinery failure, not a verdict)
 ASSUME /\ CTabNF \in 1..16 /\ CTabLatest \in 2..8
@@ -46,4 +52,9 @@ ASSUME /\ CTabNF \in 1..16 /\ CTabLatest \in 2..8
        /\ Len(CTab.upm) = CTabLatest - 1 /\ Len(CTab.upx) = CTabLatest - 1 /\ Len(CTab.cover) = CTabLatest - 1
        /\ \A v \in CTabSteps : /\ Len(CTabUpM[v]) = 2 ^ CTabNF /\ Len(CTabUpX[v]) = 2 ^ CTabNF
                                /\ CTabCover[v] \subseteq {f \in CTabFeat : CTabAdded[f] <= v}
+                               /\ Cardinality(CTabCover[v]) = Len(CTabCoverSeq[v])
+       /\ CTab.hasobs \in {0, 1}
+       /\ CTabHasObs => /\ Len(CTabObs) = CTabLatest - 1
+                        /\ \A v \in CTabSteps : /\ Len(CTabObs[v]) = 2 ^ Len(CTabCoverSeq[v])
+                                                 /\ \A k \in DOMAIN CTabObs[v] : Len(CTabObs[v][k]) = Len(CTabCoverSeq[v])
 =============================================================================
